@@ -604,6 +604,9 @@ def apply_edit(rng, world, kind):
         pair, tmpl, target = rng.choice(cands)
         n = 10 + rng.randint(0, 89)
         if tmpl is None:
+            have = {k_.get("v") for (k_, _) in pair[1]["v"] if k_.get("t") == "str"}
+            while "k%d" % n in have:
+                n += 100          # (a key that the dict holds already would be an update of its value, not a new entry)
             key = "k%d" % n
             pair[1]["v"].append([jv("str", key), jv("int", str(n))])
             stmt = "%s[%r] = %d" % (pair[0], key, n)
